@@ -216,8 +216,13 @@ def judge(w, h, res, rec, steps):
         if c != 1:
             res.violation('C09/spawn-event-count', 'pid %d (%s) has %d spawn events' % (pid, p.tag, c), steps=steps)
         # exit_code clause: died by itself / from outside while its watcher was active
-        if p.state == 'gone' and p.cause in ('self', 'ext') and not any(
-                snd == 'circus' and t <= p.exit_t for (t, sg, snd) in p.signals):
+        if p.state == 'gone' and p.cause in ('self', 'ext'):
+            if any(snd == 'circus' for (t, sg, snd) in p.signals):
+                # the daemon was terminating / signalling this worker itself (possibly a few
+                # microseconds after it died): the statement restricts the exit_code clause to
+                # workers that die by themselves or from outside; recorded, not judged
+                res.ambiguous['self-death racing a daemon-sent signal'] += 1
+                continue
             want = -int(p.status & 0x7f) if (p.status & 0x7f) else (p.status >> 8) & 0xff
             got = rec.reaped.get(pid)
             active_then = _active_at(w, p)
